@@ -66,8 +66,9 @@ PROPS = {
     },
     "C09": {
         "lean": ["Stackage.Props.C09"],
-        "streams": [{"name": "frozen", "quick": 4000, "thorough": 80000}, {"name": "nestedro", "quick": 1000, "thorough": 20000}],
-        "rule": "every exported method of Stack and Condition, enumerated by reflection (a method whose parameter types the sweep does not know makes it refuse to run), "
+        "streams": [{"name": "frozen", "quick": 4000, "thorough": 80000}, {"name": "nestedro", "quick": 1000, "thorough": 20000},
+                    {"name": "xferro", "quick": 800, "thorough": 16000}],
+        "rule": "xferro: the read-only instance as the argument of another instance's Transfer (any form): false, and it stays as it was. every exported method of Stack and Condition, enumerated by reflection (a method whose parameter types the sweep does not know makes it refuse to run), "
                 "invoked with arguments generated from its parameter types (ints incl. MinInt/MaxInt, strings, tri-state booleans, values incl. stacks / conditions / awkward "
                 "values, errors, operators, closures, auxiliary maps) singly and in sequences of 1-4 on read-only instances of every kind and content (nested trees, capacity, "
                 "mutex); the deep dump (VerifDump of the instance and of every nested Stack / Condition: content, every config field, closure / logger / aux identities) is "
@@ -399,6 +400,12 @@ def projection(pid, stream):
         return _c13_cond
     if pid == "C14" and stream == "closures":
         return lambda s: s
+    if pid == "C09" and stream == "xferro":
+        # the destination dump and the verdict of the Transfer step
+        def _xferro(s):
+            st = s.split(" ; ")
+            return st[1].split(" sd")[0] if len(st) > 1 else s
+        return _xferro
     if pid == "C17" and stream == "resets":
         # Reset clause: the configuration dumps (before the history, after each Reset: kind, capacity, options, texts,
         # policies present) with the list observed right after the Reset, and the last step (the instance is usable)
